@@ -4,7 +4,8 @@
 (* DeadbandEVSE, FiniteRatesEVSE) with an optional connected EV carrying   *)
 (* an ideal Battery.  Actions are the public calls plugin, unplug and       *)
 (* set_pilot; a refused call (StationOccupiedError, InvalidRateError) is an *)
-(* action that changes nothing.                                            *)
+(* action that changes nothing; RoundTrip is a JSON dump + load of the     *)
+(* station (with its EV and battery), the identity on the abstract state.  *)
 (*                                                                         *)
 (* Units: current in 1e-4 A (so the 1e-3 A tolerance is exactly 10), V, min,*)
 (* energy in 1e-4 W*min.                                                   *)
@@ -83,6 +84,13 @@ SetSpecial(x) ==
                     evE |-> evE, chg |-> chg])
 DoSetSpecial == \E x \in Specials : SetSpecial(x)
 
+\* evse := type(evse).from_json(evse.to_json()); the caller goes on with the loaded object.  It is the same station:
+\* same kind (so it accepts and advertises exactly what the original did), same occupant, pilot and energies.
+RoundTrip ==
+    /\ nops < MaxOps /\ nops' = nops + 1 /\ last' = "ok"
+    /\ UNCHANGED <<kind, occ, pilot, evE, chg>>
+    /\ hist' = Log([op |-> "round_trip", res |-> "ok", occ |-> occ, pilot |-> pilot, evE |-> evE, chg |-> chg])
+
 Finish ==
     /\ nops = MaxOps /\ last # "emitted"
     /\ IF Rec THEN PrintT(<<"BHV", ToJson([kind |-> kind, evs |-> EVs, v |-> V, t |-> T,
@@ -102,6 +110,7 @@ Next ==
     \/ Unplug
     \/ DoSetPilot
     \/ DoSetSpecial
+    \/ RoundTrip
     \/ Finish \/ Terminated
 
 Spec == Init /\ [][Next]_vars
